@@ -144,6 +144,9 @@ class P:
         return ("ref", name)
 
 
+src_of = {}  # rule name -> source text of its right-hand side
+
+
 def load_grammar(path):
     src = open(path).read()
     src = src[src.index("expression <-"):]
@@ -156,7 +159,9 @@ def load_grammar(path):
         name = p.ident()
         p.skip()
         p.i += 2
+        start = p.i
         rules[name] = p.alt()
+        src_of[name] = p.s[start:p.i]
     return rules
 
 
@@ -519,6 +524,40 @@ def spelling_check(rules):
             walk(e[1], rule)
     for name, body in rules.items():
         walk(body, name)
+    # (e) an action that tests the first character of its captured text (`text[0:1] == "!"`) relies on the capture starting
+    # with that character whenever the optional rule matched: the capture must begin with the optional rule, and that rule
+    # with the literal
+    for name, body in rules.items():
+        def first_items(e):
+            while e[0] in ("seq",) and e[1]:
+                e = e[1][0]
+            return e
+        def walk2(e):
+            if e[0] == "seq":
+                cap = None
+                for k in e[1]:
+                    if k[0] == "cap":
+                        cap = k
+                    elif k[0] == "action" and cap is not None:
+                        m = re.search(r'text\[0:1\]\s*==\s*`(.)`', k[1])
+                        if m:
+                            ch = m.group(1)
+                            f = first_items(cap[1])
+                            ok = False
+                            if f[0] == "opt" and f[1][0] == "ref" and f[1][1] in rules:
+                                inner = first_items(rules[f[1][1]])
+                                ok = inner[0] == "lex"  # the literal itself is not kept by this parser: position is what matters
+                                lit = re.match(r"\s*'(.)'", src_of.get(f[1][1], ""))
+                                ok = ok and lit is not None and lit.group(1) == ch
+                            if not ok:
+                                probs.append("rule %s: the action tests text[0:1] == `%s` but the capture does not begin with an optional rule that begins with that literal" % (name, ch))
+                    walk2(k)
+            elif e[0] == "alt":
+                for k in e[1]:
+                    walk2(k)
+            elif e[0] in ("star", "plus", "opt", "pred", "cap"):
+                walk2(e[1])
+        walk2(body)
     # (c) `.*` and `[*]` run the same action: both the dot form and the bracket form refer to one wildcard rule
     for a, b in (("dotChildIdentifier", "wildcardIdentifier"), ("bracketNodeIdentifier", "wildcardIdentifier")):
         if a not in rules or b not in refs_of(rules[a], rules, through_rules=False):
